@@ -9,6 +9,12 @@ pub const VERIF_DIR: &str = "/verif";
 
 /// Where evidence/ and replays/ are written. Always /verif for the registered checks; the
 /// seeded-change evaluation (tools/seedeval.sh) redirects it so that it never clobbers evidence.
+/// Where fixtures/ and known_findings.json are read from. Always /verif for the registered checks;
+/// the seeded-change evaluation points it at a frozen snapshot of /verif.
+pub fn home_dir() -> String {
+    std::env::var("SEMVER_MC_HOME").unwrap_or_else(|_| VERIF_DIR.to_string())
+}
+
 pub fn out_dir() -> String {
     std::env::var("SEMVER_MC_OUT").unwrap_or_else(|_| VERIF_DIR.to_string())
 }
@@ -47,7 +53,7 @@ impl Known {
             open_titles: BTreeMap::new(),
             open_prefixes: vec![],
         };
-        let path = format!("{}/known_findings.json", VERIF_DIR);
+        let path = format!("{}/known_findings.json", home_dir());
         let Ok(txt) = std::fs::read_to_string(&path) else {
             return k;
         };
